@@ -21,12 +21,13 @@
  *
  * ops:  conf <poll|epoll|select> <cap> <io:0|1> <role> <role> ...
  *           cap   = hints_max_fd (registration capacity of the poll back-end)
- *           io    = pre-register one context "c0" whose peer the I/O roles write to
+ *           io    = pre-register one context "cio" whose peer the I/O roles write to
+ *           contexts handed over by thread t are named c<t>.<i> (i = position in its program)
  *           role  = L          muggle_evloop_run, then "note run-returned"
  *                   E          muggle_evloop_exit, then "note exit-done"
  *                   W<k>       k x muggle_evloop_wakeup            ("note wake-done")
  *                   H<prog>    hand-over: one context per letter of prog, g = good fd, b = bad fd (-1)
- *                   I<k>       k x one byte written to the peer of c0
+ *                   I<k>       k x one byte written to the peer of the I/O context "cio"
  *                   X<k>       like L, but the harness' wake callback calls muggle_evloop_exit
  *                              from the loop thread in its k-th invocation (k >= 1)
  *           thread 0 is the CREATOR: it calls muggle_evloop_new / attach (and registers c0)
@@ -76,8 +77,9 @@ static uint32_t *g_seq;           /* futex word "evfd": number of wake-ups of th
 static int g_evfd = -1;
 
 typedef struct {
-	muggle_socket_context_t *ctx;   /* own page */
-	int id, peer, handed, bad;
+	muggle_socket_context_t *ctx;   /* own page; NULL until the context is created */
+	char name[16];                  /* "cio" | "c<thread>.<index>" */
+	int owner, idx, peer, handed, bad;
 	int add_cb, registered, released, freed, uaf;
 } Ctx;
 static Ctx g_ctx[MAXCTX];
@@ -91,7 +93,7 @@ NOSAN static void seq_bump(void) { *(volatile uint32_t *)g_seq = *(volatile uint
 
 static int is_peer_fd(int fd)
 {
-	for (int i = 0; i < g_nctx; i++) if (g_ctx[i].peer == fd && fd >= 0) return 1;
+	for (int i = 0; i < g_nctx; i++) if (g_ctx[i].ctx && g_ctx[i].peer == fd && fd >= 0) return 1;
 	return 0;
 }
 
@@ -169,29 +171,37 @@ int __wrap_select(int nfds, fd_set *r, fd_set *w, fd_set *e, struct timeval *tv)
 /* ---- contexts: one page each, PROT_NONE once freed (any later touch is a crash) ---- */
 static Ctx *ctx_of(muggle_socket_context_t *p)
 {
-	for (int i = 0; i < g_nctx; i++) if (g_ctx[i].ctx == p) return &g_ctx[i];
+	for (int i = 0; i < g_nctx; i++) if (g_ctx[i].ctx && g_ctx[i].ctx == p) return &g_ctx[i];
 	return NULL;
 }
 
-static Ctx *new_ctx(int bad)
+/* the records of all contexts of the configuration exist from set-up (static names, fixed
+ * order in the outcome line); the context itself is created when its thread gets there */
+static Ctx *new_ctx(int owner, int idx)
 {
-	Ctx *c = &g_ctx[g_nctx];
-	memset(c, 0, sizeof *c);
-	c->id = g_nctx;
-	c->peer = -1;
-	c->bad = bad;
+	Ctx *c = NULL;
+	for (int i = 0; i < g_nctx; i++) if (g_ctx[i].owner == owner && g_ctx[i].idx == idx) c = &g_ctx[i];
+	if (!c) return NULL;
 	c->ctx = (muggle_socket_context_t *)mmap(NULL, 4096, PROT_READ | PROT_WRITE,
 			MAP_PRIVATE | MAP_ANONYMOUS, -1, 0);
 	int fd = -1;
-	if (!bad) {
+	if (!c->bad) {
 		int sv[2];
 		if (socketpair(AF_UNIX, SOCK_STREAM | SOCK_NONBLOCK | SOCK_CLOEXEC, 0, sv) == 0) {
 			fd = sv[0]; c->peer = sv[1];
 		}
 	}
 	muggle_socket_ctx_init(c->ctx, fd, NULL, MUGGLE_SOCKET_CTX_TYPE_TCP_CLIENT);
-	g_nctx++;
 	return c;
+}
+
+static void declare_ctx(int owner, int idx, int bad, int handed)
+{
+	Ctx *c = &g_ctx[g_nctx++];
+	memset(c, 0, sizeof *c);
+	c->owner = owner; c->idx = idx; c->bad = bad; c->handed = handed; c->peer = -1;
+	if (owner < 0) snprintf(c->name, sizeof c->name, "cio");
+	else snprintf(c->name, sizeof c->name, "c%d.%d", owner, idx);
 }
 
 static int really_registered(muggle_socket_context_t *p)
@@ -207,11 +217,11 @@ static void on_add_ctx(muggle_event_loop_t *ev, muggle_socket_context_t *p)
 {
 	Ctx *c = ctx_of(p);
 	if (!c) return;
-	if (c->freed) { c->uaf++; vs_note("USE-AFTER-FREE add c%d", c->id); return; }
+	if (c->freed) { c->uaf++; vs_note("USE-AFTER-FREE add %s", c->name); return; }
 	int reg = really_registered(p);
 	c->add_cb++;
 	c->registered += reg;
-	vs_note("cb_add_ctx c%d reg=%d", c->id, reg);
+	vs_note("cb_add_ctx %s reg=%d", c->name, reg);
 }
 
 static void on_wake(muggle_event_loop_t *ev)
@@ -227,24 +237,24 @@ static void on_msg(muggle_event_loop_t *ev, muggle_socket_context_t *p)
 	Ctx *c = ctx_of(p);
 	char buf[64];
 	int tot = 0, n;
-	if (c && c->freed) { c->uaf++; vs_note("USE-AFTER-FREE msg c%d", c->id); return; }
+	if (c && c->freed) { c->uaf++; vs_note("USE-AFTER-FREE msg %s", c->name); return; }
 	while ((n = muggle_socket_ctx_read(p, buf, sizeof buf)) > 0) tot += n;
-	vs_note("cb_msg c%d n=%d", c ? c->id : -1, tot);
+	vs_note("cb_msg %s n=%d", c ? c->name : "?", tot);
 }
 
 static void on_close(muggle_event_loop_t *ev, muggle_socket_context_t *p)
 {
 	Ctx *c = ctx_of(p);
-	vs_note("cb_close c%d", c ? c->id : -1);
+	vs_note("cb_close %s", c ? c->name : "?");
 }
 
 static void on_release(muggle_event_loop_t *ev, muggle_socket_context_t *p)
 {
 	Ctx *c = ctx_of(p);
 	if (!c) return;
-	if (c->freed) { c->uaf++; vs_note("USE-AFTER-FREE release c%d", c->id); return; }
+	if (c->freed) { c->uaf++; vs_note("USE-AFTER-FREE release %s", c->name); return; }
 	c->released++;
-	vs_note("cb_release c%d", c->id);
+	vs_note("cb_release %s", c->name);
 }
 
 static muggle_socket_context_t *my_alloc(void *pool) { return NULL; }
@@ -253,9 +263,9 @@ static void my_free(void *pool, muggle_socket_context_t *p)
 {
 	Ctx *c = ctx_of(p);
 	if (!c) return;
-	if (c->freed) { c->uaf++; vs_note("DOUBLE-FREE c%d", c->id); return; }
+	if (c->freed) { c->uaf++; vs_note("DOUBLE-FREE %s", c->name); return; }
 	c->freed = 1;
-	vs_note("cb_free c%d", c->id);
+	vs_note("cb_free %s", c->name);
 	mprotect(c->ctx, 4096, PROT_NONE);
 }
 
@@ -280,9 +290,8 @@ static void create(void)
 	muggle_socket_evloop_handle_attach(&g_handle, g_evloop);
 	g_evfd = muggle_ev_signal_rfd(g_evloop->ev_signal);
 	if (g_io) {
-		Ctx *c = new_ctx(0);
-		c->handed = 0;
-		if (muggle_evloop_add_ctx(g_evloop, (muggle_event_context_t *)c->ctx) == 0) c->registered = 1;
+		Ctx *c = new_ctx(-1, 0);
+		if (c && muggle_evloop_add_ctx(g_evloop, (muggle_event_context_t *)c->ctx) == 0) c->registered = 1;
 	}
 	vs_reg("tid", &g_evloop->tid, sizeof g_evloop->tid, 0);
 	vs_reg("to_exit", &g_evloop->to_exit, sizeof g_evloop->to_exit, 0);
@@ -316,17 +325,17 @@ static void worker(void *arg)
 		}
 		break;
 	case 'H':
-		for (const char *p = g_role[me].prog; *p; p++) {
-			Ctx *c = new_ctx(*p == 'b');
-			c->handed = 1;
-			vs_note("hand c%d", c->id);
+		for (int i = 0; g_role[me].prog[i]; i++) {
+			Ctx *c = new_ctx(me, i);
+			if (!c) break;
+			vs_note("hand %s", c->name);
 			muggle_socket_evloop_add_ctx(g_evloop, c->ctx);
-			vs_note("hand-done c%d", c->id);
+			vs_note("hand-done %s", c->name);
 		}
 		break;
 	case 'I':
 		for (int i = 0; i < g_role[me].k; i++) {
-			if (g_ctx[0].peer >= 0) write(g_ctx[0].peer, "x", 1);
+			if (g_ctx[0].ctx && g_ctx[0].peer >= 0) write(g_ctx[0].peer, "x", 1);
 			vs_note("io-done");
 		}
 		break;
@@ -344,6 +353,10 @@ static void setup(void)
 	if (!g_seq) g_seq = (uint32_t *)calloc(1, sizeof(uint32_t));
 	*g_seq = 0;
 	vs_reg("evfd", g_seq, sizeof(uint32_t), 0);
+	if (g_io) declare_ctx(-1, 0, 0, 0);
+	for (int i = 0; i < g_nth; i++)
+		if (g_role[i].kind == 'H')
+			for (int j = 0; g_role[i].prog[j]; j++) declare_ctx(i, j, g_role[i].prog[j] == 'b', 1);
 	for (int i = 0; i < g_nth; i++) {
 		if (g_role[i].kind == 'X') g_selfexit_at = g_role[i].k;
 		vs_spawn(worker, (void *)(intptr_t)i);
@@ -362,16 +375,18 @@ static void teardown(int st)
 		   g_cb_wake, queued);
 	for (int i = 0; i < g_nctx; i++) {
 		Ctx *c = &g_ctx[i];
-		printf(" c%d:%s%d%d%d%d", c->id, c->handed ? "h" : "p", c->registered, c->released, c->freed, c->uaf);
+		printf(" %s:%d%d%d%d", c->name, c->registered, c->released, c->freed, c->uaf);
 	}
 	printf("\n");
 	for (int i = 0; i < g_nctx; i++) {
 		Ctx *c = &g_ctx[i];
+		if (!c->ctx) continue;
 		if (!c->freed) {
 			if (c->ctx->base.fd >= 0) close(c->ctx->base.fd);
 		} else mprotect(c->ctx, 4096, PROT_READ | PROT_WRITE);
 		if (c->peer >= 0) close(c->peer);
 		munmap(c->ctx, 4096);
+		c->ctx = NULL;
 	}
 	g_nctx = 0;
 	if (g_evloop) muggle_evloop_delete(g_evloop);
